@@ -23,6 +23,7 @@ EXHAUSTIVE_PARTS = ["hname: all ASCII strings up to length 2", "allowed_char: al
 def gen(tier, rng):
     n = {"quick": 4000, "search": 15000, "thorough": 80000}[tier]
     cases = hdrgen.hval_cases(rng, n)
+    cases += hdrgen.cdisp_cases(rng, {"quick": 200, "search": 1000, "thorough": 5000}[tier])
     for b in range(128):
         cases.append(f"hval\t{hexs('X')}\t{hexs('a' + chr(b) + 'b')}")
         cases.append(f"hname\t{bytes([b]).hex()}")
@@ -57,6 +58,8 @@ def nontrivial(case):
 
 
 def shrinkable(case):
+    if case.startswith("typed"):
+        return [3]
     return [1, 2] if case.startswith("hval") else [1]
 
 
@@ -70,6 +73,14 @@ def distribution(cases):
             k = "hval_needs_encoding" if any(b > 126 or b < 32 for b in v) else "hval_plain"
             d[k] = d.get(k, 0) + 1
     return d
+
+
+def _cdisp_escaped(f, o, v):
+    """Content-Disposition: a name with double quotes / backslashes; a line sized before the quoted-pair escaping exceeds 78 after it"""
+    if f[0] != "typed" or f[1] != "cdisp" or "line-over-78-that-could-have-been-folded" not in v:
+        return False
+    name = unhex(f[3])
+    return b'"' in name or b"\\" in name
 
 
 def _tab_not_fold_point(f, o, v):
@@ -152,5 +163,5 @@ def _space_run_over_998(f, o, v):
     return bool(long_lines) and all(b" " * 900 in l for l in long_lines)
 
 
-FINDING_CLASSES = {"tab-not-a-fold-point": _tab_not_fold_point, "trailing-white-space-past-78": _trailing_ws_past_78,
+FINDING_CLASSES = {"content-disposition-escaped-name-over-78": _cdisp_escaped, "tab-not-a-fold-point": _tab_not_fold_point, "trailing-white-space-past-78": _trailing_ws_past_78,
                    "spaces-before-encoded-word": _spaces_before_encoded_word, "space-run-over-998": _space_run_over_998}
